@@ -9,7 +9,7 @@ from typing import Any, Optional
 from pbt import specs
 from pbt.values import combine, ctx_digest, digest
 
-CACHEABLE = {'N1', 'N2', 'N3', 'NN', 'N', 'NX', 'J', 'P2', 'T', 'CtxSub', 'CtxSub2', 'CtxWrap', 'CtxSubMix', 'CtxSubKid'}
+CACHEABLE = {'N1', 'N2', 'N3', 'NN', 'N', 'NX', 'J', 'P2', 'T', 'CtxSub', 'CtxSub2', 'CtxWrap', 'CtxSubMix', 'CtxSubKid', 'NCV'}
 FAIL_MODES_ALWAYS = {'exit', 'baseexc', 'kill9', 'kill15', 'raisefrom', 'exit0'}
 
 
